@@ -74,6 +74,16 @@ DEEP = [
 ]
 
 
+def mkinv(**kw):
+    """invocation vector of Model/Cli.v: everything fine unless stated otherwise"""
+    d = dict(in_regular=1, out_is_in=0, parser_test=0, has_cmd=1, cmd_regular=1, cmd_exec=1, has_cc=0, cc_regular=1, cc_exec=1, jobs_ok=1,
+             cmd_runs=1, cc_runs=1, golden_has_match=1, interrupted=0, internal=0)
+    assert set(kw) <= set(d)
+    d.update(kw)
+    return [d[k] for k in ('in_regular', 'out_is_in', 'parser_test', 'has_cmd', 'cmd_regular', 'cmd_exec', 'has_cc', 'cc_regular', 'cc_exec', 'jobs_ok',
+                           'cmd_runs', 'cc_runs', 'golden_has_match', 'interrupted', 'internal')]
+
+
 def inprocess_pipeline(impl, text):
     """Everything that runs unguarded in the main process; returns the first escaping exception or None."""
     from ddsmt import options, mutators, smtlib, nodes, strategy_ddmin, strategy_hierarchical, nodeio
@@ -255,19 +265,19 @@ def run(ctx):
         out = os.path.join(d, 'out.smt2')
         # invocation -> model input (in_regular, parser_test, has_cmd, cmd_regular, cmd_exec, golden_has_match, interrupted, internal)
         cases = [
-            ('missing input', [os.path.join(d, 'nonexist.smt2'), out] + cmd, [0, 0, 1, 1, 1, 1, 0, 0]),
-            ('input is a directory', [os.path.join(d, 'adir'), out] + cmd, [0, 0, 1, 1, 1, 1, 0, 0]),
-            ('no command', [good, out], [1, 0, 0, 1, 1, 1, 0, 0]),
-            ('command missing', [good, out, os.path.join(d, 'nonexist.sh')], [1, 0, 1, 0, 1, 1, 0, 0]),
-            ('command is a directory', [good, out, os.path.join(d, 'adir')], [1, 0, 1, 0, 1, 1, 0, 0]),
-            ('command not executable', [good, out, noexec], [1, 0, 1, 1, 0, 1, 0, 0]),
-            ('match-out absent', ['--match-out', 'nosuchstring', good, out] + cmd, [1, 0, 1, 1, 1, 0, 0, 0]),
-            ('match-err absent', ['--match-err', 'nosuchstring', good, out] + cmd, [1, 0, 1, 1, 1, 0, 0, 0]),
-            ('parser test', ['--parser-test', good, out], [1, 1, 0, 1, 1, 1, 0, 0]),
-            ('normal run', [good, out] + cmd, [1, 0, 1, 1, 1, 1, 0, 0]),
-            ('normal run ddmin -j2', ['--strategy', 'ddmin', '-j', '2', good, out] + cmd, [1, 0, 1, 1, 1, 1, 0, 0]),
+            ('missing input', [os.path.join(d, 'nonexist.smt2'), out] + cmd, mkinv(in_regular=0)),
+            ('input is a directory', [os.path.join(d, 'adir'), out] + cmd, mkinv(in_regular=0)),
+            ('no command', [good, out], mkinv(has_cmd=0)),
+            ('command missing', [good, out, os.path.join(d, 'nonexist.sh')], mkinv(cmd_regular=0)),
+            ('command is a directory', [good, out, os.path.join(d, 'adir')], mkinv(cmd_regular=0)),
+            ('command not executable', [good, out, noexec], mkinv(cmd_exec=0)),
+            ('match-out absent', ['--match-out', 'nosuchstring', good, out] + cmd, mkinv(golden_has_match=0)),
+            ('match-err absent', ['--match-err', 'nosuchstring', good, out] + cmd, mkinv(golden_has_match=0)),
+            ('parser test', ['--parser-test', good, out], mkinv(parser_test=1, has_cmd=0)),
+            ('normal run', [good, out] + cmd, mkinv()),
+            ('normal run ddmin -j2', ['--strategy', 'ddmin', '-j', '2', good, out] + cmd, mkinv()),
             ('nothing to minimise', [good, out, e2e.TOKPRED, 'all', 'set-logic', 'ALL', 'declare-const', 'x', 'Int', 'assert', '>', '0', '<', '5', 'check-sat'],
-             [1, 0, 1, 1, 1, 1, 0, 0]),
+             mkinv()),
         ]
         # further usage errors and hostile commands (the model's invocation vector treats them as: command cannot be run -> 1,
         # or a normal run -> 0)
@@ -281,13 +291,18 @@ def run(ctx):
         open(noshebang, 'w').write('echo hi\n')
         os.chmod(noshebang, 0o755)
         cases += [
-            ('command output is not UTF-8', [good, out, nonutf], [1, 0, 1, 1, 1, 1, 0, 0]),
-            ('command has no valid executable format', [good, out, garbage], [1, 0, 1, 1, 0, 1, 0, 0]),
-            ('cross-check command missing', ['-c', os.path.join(d, 'nonexist.sh'), good, out] + cmd, [1, 0, 1, 0, 1, 1, 0, 0]),
-            ('cross-check command not executable', ['-c', noexec, good, out] + cmd, [1, 0, 1, 1, 0, 1, 0, 0]),
-            ('zero jobs', ['-j', '0', '--strategy', 'hierarchical', good, out] + cmd, [1, 0, 0, 1, 1, 1, 0, 0]),
-            ('negative jobs', ['-j', '-3', good, out] + cmd, [1, 0, 0, 1, 1, 1, 0, 0]),
-            ('output file is the input file', [good, good] + cmd, [1, 0, 0, 1, 1, 1, 0, 0]),
+            ('command output is not UTF-8', [good, out, nonutf], mkinv()),
+            ('command has no valid executable format', [good, out, garbage], mkinv(cmd_runs=0)),
+            ('command without shebang line', [good, out, noshebang], mkinv(cmd_runs=0)),
+            ('cross-check command has no valid executable format', ['-c', garbage, good, out] + cmd, mkinv(has_cc=1, cc_runs=0)),
+            ('cross-check command missing', ['-c', os.path.join(d, 'nonexist.sh'), good, out] + cmd, mkinv(has_cc=1, cc_regular=0)),
+            ('cross-check command not executable', ['-c', noexec, good, out] + cmd, mkinv(has_cc=1, cc_exec=0)),
+            ('cross-check run', ['-c', ' '.join(cmd), good, out] + cmd, mkinv(has_cc=1)),
+            ('zero jobs', ['-j', '0', '--strategy', 'hierarchical', good, out] + cmd, mkinv(jobs_ok=0)),
+            ('zero jobs, ddmin', ['-j', '0', '--strategy', 'ddmin', good, out] + cmd, mkinv(jobs_ok=0)),
+            ('negative jobs', ['-j', '-3', good, out] + cmd, mkinv(jobs_ok=0)),
+            ('output file is the input file', [good, good] + cmd, mkinv(out_is_in=1)),
+            ('several usage errors at once', ['-j', '0', '-c', noexec, good, good, noexec], mkinv(out_is_in=1, cmd_exec=0, has_cc=1, cc_exec=0, jobs_ok=0)),
         ]
         mcalls = [(45, inv) for _, _, inv in cases]
         mres = model.batch(mcalls)
